@@ -126,11 +126,57 @@ fn check_binary_spec(env: &Env, spec: &[Entry], t: &mut Tape, st: &mut Stats) ->
             st.nontrivial(&format!("{:?}", case));
         }
     }
+    // configuration order: the same selection (possibly naming a pattern twice) in two orders
+    {
+        let all = crate::patterns::all();
+        let mut sel: Vec<&'static str> = all.iter().filter(|_| t.chance(120)).map(|p| p.name).collect();
+        if sel.len() >= 2 && t.chance(110) {
+            let dup = sel[t.below(sel.len())];
+            sel.push(dup);
+        }
+        if sel.len() >= 2 {
+            let sc = Scratch::new("c13cfg");
+            let root = sc.path.join("tree");
+            std::fs::create_dir_all(&root).unwrap();
+            tree::materialize(spec, &root);
+            let mut outs: Vec<Vec<u8>> = Vec::new();
+            let mut orders: Vec<Vec<&str>> = Vec::new();
+            for round in 0..3 {
+                let perm = if round == 0 { (0..sel.len()).collect::<Vec<_>>() } else { t.permutation(sel.len()) };
+                let order: Vec<&str> = perm.iter().map(|i| sel[*i]).collect();
+                let list = |cat: &str| order.iter().filter(|n| crate::patterns::by_name(n).map(|p| p.category() == cat).unwrap_or(false)).map(|n| format!("\"{n}\"")).collect::<Vec<_>>().join(", ");
+                let cwd = sc.path.join(format!("cwd{round}"));
+                std::fs::create_dir_all(&cwd).unwrap();
+                std::fs::write(cwd.join("cfg.toml"), format!("path = '{}'\noptimizations = [{}]\nvulnerabilities = [{}]\nqa = [{}]\n", root.display(), list("optimizations"), list("vulnerabilities"), list("qa"))).unwrap();
+                let out = e2e::run_solstat(env, &cwd, &["--toml", "cfg.toml", "--path", root.to_str().unwrap()]);
+                st.count("binary_runs_with_configuration");
+                st.evaluations += 1;
+                if out.code != Some(0) {
+                    return vec![];
+                }
+                outs.push(out.report.unwrap_or_default());
+                orders.push(order);
+            }
+            if orders.iter().any(|o| *o != orders[0]) {
+                st.count("trees_run_under_different_configuration_orders");
+            }
+            for (k, o) in outs.iter().enumerate().skip(1) {
+                if *o != outs[0] {
+                    return vec![Violation::new(
+                        "c13-binary",
+                        "binary:report-depends-on-configuration-order",
+                        format!("the same pattern selection configured as {:?} and as {:?} produced different reports", orders[0], orders[k]),
+                        json!({"tree": tree::to_json(spec), "orders": [orders[0], orders[k]]}),
+                    )];
+                }
+            }
+        }
+    }
     for r in &reports[1..] {
         if *r != reports[0] {
             let pa = crate::refmodel::report::parse_report(&String::from_utf8_lossy(&reports[0]));
             let pb = crate::refmodel::report::parse_report(&String::from_utf8_lossy(r));
-            let sig = if pa.sections != pb.sections { "binary:section-order-differs-between-runs" } else { "binary:file-order-differs-between-runs" };
+            let sig = if pa.sections != pb.sections { "binary:section-order-differs-between-runs" } else { "binary:entries-differ-between-runs" };
             return vec![Violation::new("c13-binary", sig, "two runs over the same directory content produced different reports", case)];
         }
     }
@@ -191,6 +237,7 @@ pub fn run(env: &Env) -> i32 {
             ("sets with >= 2 patterns".into(), st.counters.get("sets_with_two_or_more_patterns").copied().unwrap_or(0), 500),
             ("sets with >= 2 files under a pattern".into(), st.counters.get("sets_with_two_or_more_files_under_a_pattern").copied().unwrap_or(0), 500),
             ("trees run under different listing orders".into(), st.counters.get("trees_run_under_different_listing_orders").copied().unwrap_or(0), 5),
+            ("trees run under different configuration orders".into(), st.counters.get("trees_run_under_different_configuration_orders").copied().unwrap_or(0), 5),
         ],
     };
     finish(env, st, meta)
